@@ -221,7 +221,20 @@ def run_request(root, r, timeout):
             CALLS.clear()
             OPENS[0] = 0
             SPY["on"] = bool(r.get("spy"))
-            box["out"] = iterate(root, r)
+            if r.get("seed") is not None:
+                # fixed LCG seed and a known final shuffle (reverse): the run becomes a function of its inputs, comparable with the model
+                import random as _random
+                import sedpack.io.itertools.itertools as IT
+                saved = (IT.initial_random_state, _random.shuffle)
+                IT.initial_random_state = lambda s=None, _v=r["seed"]: np.array([_v], np.uint32)[0]
+                _random.shuffle = lambda buf: buf.reverse()
+                try:
+                    with np.errstate(all="ignore"):
+                        box["out"] = iterate(root, r)
+                finally:
+                    IT.initial_random_state, _random.shuffle = saved
+            else:
+                box["out"] = iterate(root, r)
             SPY["on"] = False
             if r.get("spy"):
                 box["opened_at_yield"] = r.pop("_opened", [])
